@@ -49,7 +49,10 @@ def obligations(tier):
     quick = tier == "quick"
     from symx import Obligation
 
-    return [
+    from harness import C17
+
+    edited = C17.obligations(tier, prefix="O16.7")  # summary keeps describing what transform does after manual edits (incl. dropna=False objects)
+    return edited + [
         Obligation(name="O16.6 summary(feature) holds the rows of that feature only, for feature names contained in one another; unknown names are refused",
                    harness=h_summary_feature, jobs=[dict(n_feats=n, rot=r) for n in (2, 4, 6) for r in (0, 1, 3)], encodes=["BaseDiscretizer.summary"],
                    bounds="2-6 kept features named size, size_log, size_1, size_10, log, 1 (quantitative and qualitative alternating); requested name solver-chosen among the kept names and four near misses",
